@@ -46,6 +46,16 @@ def requests(tier, rng):
         a = [rng.randrange(-9 * Q + 1, 9 * Q) for _ in range(256)]; b = [rng.randrange(-9 * Q + 1, 9 * Q) for _ in range(256)]
         L.append("poly::pointwise_montgomery %s %s" % (fmt(a), fmt(b)))
     L.append("poly::pointwise_montgomery %s %s" % (fmt([9 * Q - 1] * 256), fmt([-(9 * Q - 1)] * 256)))
+    # power-of-two grid: every pair (+-2^i + d, +-2^j + e), d, e in {-1, 0, 1}, inside the 9q operand bound --
+    # where word-size shortcuts and sign handling change behaviour
+    vals = sorted({sg * (2**i) + d for i in range(0, 27) for d in (-1, 0, 1) for sg in (1, -1) if abs(sg * (2**i) + d) < 9 * Q} | {9 * Q - 1, -(9 * Q - 1), Q, -Q, Q - 1, 1 - Q})
+    pairs = [(x, y) for x in vals for y in vals]
+    if tier == "quick":
+        pairs = [pq for k, pq in enumerate(pairs) if (k % 4 == (rng.randrange(4)))] + [(sg1 * 2**i, sg2 * 2**j) for i in range(27) for j in range(27) for sg1 in (1, -1) for sg2 in (1, -1) if 2**i < 9 * Q and 2**j < 9 * Q]
+    for k in range(0, len(pairs), 256):
+        chunk = pairs[k:k + 256]
+        chunk += [(0, 0)] * (256 - len(chunk))
+        L.append("poly::pointwise_montgomery %s %s" % (fmt([x for x, _ in chunk]), fmt([y for _, y in chunk])))
     # products: pairs (a, b) whose transforms are chained in the follow-up stages
     for _ in range(3 if tier == "quick" else 20):
         a = [rng.randrange(-Q + 1, Q) for _ in range(256)]; b = [rng.randrange(-Q + 1, Q) for _ in range(256)]
